@@ -24,15 +24,17 @@ class SDec:
 
 class SymV:
     """symbolic field values (deductive side)"""
-    def __init__(s): s.cons = []; s.fields = {}
+    def __init__(s, printable_only=False): s.cons = []; s.fields = {}; s.printable_only = printable_only          # printable_only: C12's 'genuine message' (identification strings as meters send them)
     def raw(s, name, n):
         bs = [z3.BitVec(f"{name}_{i}", 8) for i in range(n)]; s.fields[name] = bs; return bs
     def integer(s, name, nbytes, signed):
         bs = s.raw(name, nbytes); bv = bs[0] if nbytes == 1 else z3.Concat(*bs); w = 8 * nbytes
         v = z3.If(z3.Extract(w - 1, w - 1, bv) == 1, z3.BV2Int(bv) - (1 << w), z3.BV2Int(bv)) if signed else z3.BV2Int(bv)
         return bs, v
-    def text(s, name, L):
-        bs = s.raw(name, L); s.cons += [z3.And(z3.UGE(b, 0x20), z3.ULE(b, 0x7E)) for b in bs]; return bs
+    def text(s, name, L, ascii_all=False):
+        """ascii_all: every ASCII character 0x00..0x7F (visible-string fields: Aidon, Kamstrup).  Otherwise printable 0x20..0x7E: the Kaifa octet-string texts, whose grammar strips trailing NUL
+        octets and reads twelve octets that form a date-time as a date-time - behaviour outside the printable range is the subject of the bounded checks of C08 (known finding)"""
+        bs = s.raw(name, L); s.cons += [z3.ULE(b, 0x7F) if (ascii_all and not s.printable_only) else z3.And(z3.UGE(b, 0x20), z3.ULE(b, 0x7E)) for b in bs]; return bs
     def not_prefix(s, chars, prefix):
         s.cons.append(z3.Not(z3.And(*[chars[i] == prefix[i] for i in range(len(prefix))])))
     def datetime(s, name):
@@ -376,7 +378,7 @@ def genuine_group(repo):
     obls = []; pairs = []
     for fam in ("aidon_cases", "kaifa_cases", "kamstrup_cases"):
         for label, build in getattr(SP, fam)().items():
-            V0 = SymV(); module, func, octs, exp = build(V0)
+            V0 = SymV(printable_only=True); module, func, octs, exp = build(V0)
             own = next(i for i, (nm, m_, f_) in enumerate(BINARY_TABLE) if m_ == module and f_ == func)
             for i in range(own):
                 nm, m_, f_ = BINARY_TABLE[i]
@@ -386,7 +388,7 @@ def genuine_group(repo):
                     ok = isinstance(first, int) and ((first < 0x20 and first not in (0x0A, 0x0D)) or first >= 0x80)
                     obls.append(Obligation(f"han.dlde.decode_p1_readout_content[refuses: {label}]#pre-of-refusal:the list starts with a control or non-ASCII octet ({first!r})", [], z3.BoolVal(bool(ok)), kind="post", func="han.dlde.decode_p1_readout_content"))
                     pairs.append((label, nm)); continue
-                V = SymV(); module, func, octs, exp = build(V)
+                V = SymV(printable_only=True); module, func, octs, exp = build(V)
                 obls += reject_obligations(eng, m_, f_, octs, label, V, nm); pairs.append((label, nm))
     # genuine P1 text against the three frame decoders that precede the 'P1' entry: a data block consists of printable ASCII characters and CR / LF.  The LLC header octets are not
     # checked by the grammar, but the date-time of the APDU header must start with 0x00 / 0x09 / 0x0C: inputs of 0..10 and of 24 octets, every octet symbolic over the text alphabet.
